@@ -178,9 +178,12 @@ Print Assumptions json_roundtrip.
 
 (* S19 (finding origins-undecodable): the statement over ALL values that are well-formed for the property is false of the
    faithful model: pin options with one origin are written by both codecs and rejected by both decoders *)
+(* the witness lists its fields by name (canonical order of Model/C08_Reuse.v, re-listed in the order of the generated table),
+   so that the order in which api.PinOptions declares its fields does not matter *)
 Definition opts_with_origin : val :=
-  VRec [VInt 1; VInt 2; VStr "n"; VInt 0; VUint 0; VList []; VTime None; VMap []; VCid None;
-        VList [VAddr (Some "/ip4/1.2.3.4/tcp/4001/p2p/QmPeer")]].
+  rec_by_name api_schema "PinOptions" (firstn 10 pin_go_names)
+          [VInt 1; VInt 2; VStr "n"; VInt 0; VUint 0; VList []; VTime None; VMap []; VCid None;
+           VList [VAddr (Some "/ip4/1.2.3.4/tcp/4001/p2p/QmPeer")]].
 
 Theorem pin_origins_undecodable_refuted :
   exists tn v, forall c,
@@ -203,12 +206,16 @@ Print Assumptions pin_origins_undecodable_partial.
 
 (* non-vacuity: a full pin, a status record with a multi-bit filter and a peer identity are well-formed for both codecs *)
 Example codec_examples :
-  let pinv := VRec [VInt 2; VInt 3; VStr "n"; VInt 1; VUint 7; VList [VPeer (TOk "QmA")]; VTime (Some (1790000000, 5%N));
-                    VMap [("k", VStr "v")]; VCid (Some "QmOld"); VList [];
-                    VCid (Some "QmData"); VUint 2; VList [VPeer (TOk "QmA"); VPeer (TOk "QmB")]; VInt (-1); VPtr (Some (VCid (Some "QmRef")))] in
-  let info := VRec [VCid (Some "QmData"); VStr "n"; VPeer (TOk "QmA"); VStr "peer"; VInt 20; VTime (Some (1790000000, 0%N)); VStr ""] in
-  let idv := VRec [VPeer (TOk "QmA"); VList [VAddr (Some "/ip4/1.2.3.4/tcp/1")]; VList []; VList []; VStr "v"; VStr ""; VStr "/p/1"; VStr "";
-                   VPtr (Some (VRec [VPeer TEmpty; VList []; VStr "no daemon"])); VStr "name"] in
+  let pinv := rec_by_name api_schema "Pin" pin_go_names
+                  [VInt 2; VInt 3; VStr "n"; VInt 1; VUint 7; VList [VPeer (TOk "QmA")]; VTime (Some (1790000000, 5%N));
+                   VMap [("k", VStr "v")]; VCid (Some "QmOld"); VList [];
+                   VCid (Some "QmData"); VUint 2; VList [VPeer (TOk "QmA"); VPeer (TOk "QmB")]; VInt (-1); VPtr (Some (VCid (Some "QmRef")))] in
+  let info := rec_by_name api_schema "PinInfo" ["Cid"; "Name"; "Peer"; "PeerName"; "Status"; "TS"; "Error"]
+                  [VCid (Some "QmData"); VStr "n"; VPeer (TOk "QmA"); VStr "peer"; VInt 20; VTime (Some (1790000000, 0%N)); VStr ""] in
+  let idv := rec_by_name api_schema "ID"
+                  ["ID"; "Addresses"; "ClusterPeers"; "ClusterPeersAddresses"; "Version"; "Commit"; "RPCProtocolVersion"; "Error"; "IPFS"; "Peername"]
+                  [VPeer (TOk "QmA"); VList [VAddr (Some "/ip4/1.2.3.4/tcp/1")]; VList []; VList []; VStr "v"; VStr ""; VStr "/p/1"; VStr "";
+                   VPtr (Some (rec_by_name api_schema "IPFSID" ["ID"; "Addresses"; "Error"] [VPeer TEmpty; VList []; VStr "no daemon"])); VStr "name"] in
   forallb (fun c => wf_val c api_schema false (TStruct "Pin") false pinv
                     && wf_val c api_schema false (TStruct "PinInfo") false info
                     && wf_val c api_schema false (TStruct "ID") false idv) [Msgpack; Json] = true.
